@@ -469,7 +469,7 @@ GIM_NEW = '    def _get_index_mapping(self, index: TensorIndex) -> list[int | No
 GIM_OLD = '    def _get_index_mapping(self, index: TensorIndex) -> list[int | None]:\n        normalized_index = normalize_index(index, self.shape)  # type: ignore[no-untyped-call]\n        advanced_indices = []\n        index_mapping: list[int | None] = list(range(self.rank))\n        i = 0\n        for ind in normalized_index:\n            # axis with integer index will be removed\n            if isinstance(ind, int):\n                index_mapping.pop(i)\n                continue\n\n            # new axis inserted by None index\n            if ind is None:\n                index_mapping.insert(i, None)\n\n            # advanced indexing\n            elif isinstance(ind, np.ndarray):\n                advanced_indices.append(i)\n\n            i += 1\n\n        if len(advanced_indices) == 0:\n            return index_mapping\n\n        b = np.broadcast(*[normalized_index[i] for i in advanced_indices])\n        a0, a1 = advanced_indices[0], advanced_indices[-1]\n\n        if advanced_indices != list(range(a0, a1 + 1)):\n            # create advanced indices in front\n            for i in advanced_indices:\n                index_mapping.remove(i)\n            new_indices: list[int | None] = [None] * b.ndim\n            return new_indices + index_mapping\n        else:\n            # replace indices with broadcast shape\n            return index_mapping[:a0] + [None] * b.ndim + index_mapping[a1 + 1 :]\n\n'
 V("D22 regression: the dask-normalised index mapping with one counter for two index spaces", "C19", BASE, GIM_NEW, GIM_OLD, "E13", "_get_index_mapping",
   extra=[(BASE, "    is_numerical_scalar,\n    posify_index,", "    is_numerical_scalar,\n    normalize_index,\n    posify_index,")])
-V("index mapping: a mask counted like an integer array", "C19", BASE, '                    elements.append(("array", index_array.ndim, 1))', '                    elements.append(("array", 1, index_array.ndim))', "E13", "_get_index_mapping", quick=True)
+V("index mapping: a mask counted like an integer array", "C19", BASE, '                    elements.append(("array", index_array.ndim, 1))', '                    elements.append(("array", 1, index_array.ndim))', "E13", "_get_index_mapping")
 V("index mapping: integers next to arrays not treated as advanced indices", "C19", BASE, "e[0] == \"array\" or (len(array_dims) > 0 and e[0] == \"integer\")]", "e[0] == \"array\"]", "E13", "_get_index_mapping")
 V("index mapping: separated advanced indices appended instead of moved to the front", "C19", BASE, "            return [None] * broadcast_ndim + index_mapping", "            return index_mapping + [None] * broadcast_ndim", "E13", "_get_index_mapping")
 V("index mapping: ellipsis expanded without counting the consumed axes", "C19", BASE, "        missing = self.rank - sum(e[1] for e in elements)", "        missing = self.rank - len([e for e in elements if e[0] != \"newaxis\" and e[0] != \"ellipsis\"])", "E13", "_get_index_mapping")
@@ -479,7 +479,7 @@ V("index mapping: an ellipsis that stands for no axis does not separate", "C19",
 
 
 # ------------------------------------------------------------------------------------------------ tensor diagrams over shapes (E14) and operand identity (E14.id)
-V("add_edge takes the LAST unused covariant index of the source", "C05", BASE, "        i = free_source.pop(0)\n", "        i = free_source.pop()\n", "E14", "TensorDiagram.calculate", quick=True)
+V("add_edge takes the LAST unused covariant index of the source", "C05", BASE, "        i = free_source.pop(0)\n", "        i = free_source.pop()\n", "E14", "TensorDiagram.calculate")
 V("calculate: contravariant indices before the covariant ones in the result", "C05", BASE, "result_indices[0] + result_indices[1] + result_indices[2])", "result_indices[0] + result_indices[2] + result_indices[1])", "E14", "TensorDiagram.calculate")
 V("calculate: one covariant index too many in the result type", "C05", BASE, "        return Tensor(result, covariant=range(n_cov), tensor_rank=result.ndim - n_free, copy=False)",
   "        return Tensor(result, covariant=range(n_cov + 1), tensor_rank=result.ndim - n_free, copy=False)", "E14", "TensorDiagram.calculate")
